@@ -111,8 +111,11 @@ def run(ctx, res):
         if b in (10, 13):
             continue
         code_lines += [b'--' + bytes([b]) + b'z\n', b'--\x8b' + bytes([b]) + b'\n', b'--' + bytes([b, 0x10 + b % 16]) + b'\n']
-    for k in range(0, len(code_lines), 96):
-        chunk = code_lines[k:k + 96]
+    # lines that look like a section header once the glyphs are spelled in Unicode letters (`__<kana>__`), inside a long string / comment
+    groups = [code_lines[k:k + 96] for k in range(0, len(code_lines), 96)]
+    for g_ in (0x9a, 0xb0, 0xfd, 0x89, 0x95, 0x80, 0xff):
+        groups.append([b'x=[[\n', b'__' + bytes([g_]) + b'__\n', b'__' + bytes([g_, 0x9b]) + b'lua__\n', b']]\n', b'--[[\n', b'__' + bytes([g_]) + b'gfx__\n', b']]\n'])
+    for k, chunk in enumerate(groups):
         res.evaluations += 1
         res.count('p8-file-lines', len(chunk))
         try:
